@@ -389,23 +389,23 @@ package asm
 //@   loop 1: invariant forall(k int64, mapdom(gen.old.metadataDefs, k) ==> exists(a, 0, len(metadataIDs), metadataIDs[a] == k))
 //@ # addAttrGroupDefsToModule: the same statement for attribute groups (ascending ID)
 //@ func (*generator).addAttrGroupDefsToModule
-//@   props C20
-//@   requires gen != nil && gen.m != nil && gen.old.attrGroupDefs != nil && gen.new.attrGroupDefs != nil && len(gen.m.AttrGroupDefs) == 0
-//@   requires forall(k int64, mapdom(gen.old.attrGroupDefs, k) ==> mapdom(gen.new.attrGroupDefs, k), pattern(mapdom(gen.old.attrGroupDefs, k)))
+//@   props C20 C04
+//@   requires gen != nil && gen.m != nil && gen.new.attrGroupDefs != nil && len(gen.m.AttrGroupDefs) == 0
 //@   requires forall(k int64, mapdom(gen.new.attrGroupDefs, k) ==> mapvalk(gen.new.attrGroupDefs, k) != nil && mapvalk(gen.new.attrGroupDefs, k).ID == k, pattern(mapdom(gen.new.attrGroupDefs, k)))
 //@   assigns gen.m.AttrGroupDefs
 //@   ensures forall(i int, j int, 0 <= i && i < j && j < len(gen.m.AttrGroupDefs) ==> gen.m.AttrGroupDefs[i].ID < gen.m.AttrGroupDefs[j].ID)
-//@   ensures forall(i, 0, len(gen.m.AttrGroupDefs), mapdom(gen.old.attrGroupDefs, gen.m.AttrGroupDefs[i].ID) && gen.m.AttrGroupDefs[i] == gen.new.attrGroupDefs[gen.m.AttrGroupDefs[i].ID])
-//@   ensures forall(k int64, mapdom(gen.old.attrGroupDefs, k) ==> exists(i, 0, len(gen.m.AttrGroupDefs), gen.m.AttrGroupDefs[i] == gen.new.attrGroupDefs[k]))
+//@   # (C04: the module lists exactly the attribute groups of the IR index -- also the empty groups materialised for used but undefined IDs)
+//@   ensures forall(i, 0, len(gen.m.AttrGroupDefs), mapdom(gen.new.attrGroupDefs, gen.m.AttrGroupDefs[i].ID) && gen.m.AttrGroupDefs[i] == gen.new.attrGroupDefs[gen.m.AttrGroupDefs[i].ID])
+//@   ensures forall(k int64, mapdom(gen.new.attrGroupDefs, k) ==> exists(i, 0, len(gen.m.AttrGroupDefs), gen.m.AttrGroupDefs[i] == gen.new.attrGroupDefs[k]))
 //@   loop 0: invariant len(attrGroupIDs) >= 0 && (cap(attrGroupIDs) == 0 || fresh(attrGroupIDs))
-//@   loop 0: invariant forall(a, 0, len(attrGroupIDs), mapdom(gen.old.attrGroupDefs, attrGroupIDs[a]) && visited(attrGroupIDs[a]))
+//@   loop 0: invariant forall(a, 0, len(attrGroupIDs), mapdom(gen.new.attrGroupDefs, attrGroupIDs[a]) && visited(attrGroupIDs[a]))
 //@   loop 0: invariant forall(k int64, visited(k) ==> exists(a, 0, len(attrGroupIDs), attrGroupIDs[a] == k))
 //@   loop 0: invariant forall(a int, b int, 0 <= a && a < b && b < len(attrGroupIDs) ==> attrGroupIDs[a] != attrGroupIDs[b])
 //@   loop 1: invariant 0 <= range_i && range_i <= len(attrGroupIDs) && len(gen.m.AttrGroupDefs) == len(attrGroupIDs) && fresh(gen.m.AttrGroupDefs)
 //@   loop 1: invariant forall(a, 0, range_i, gen.m.AttrGroupDefs[a] == gen.new.attrGroupDefs[attrGroupIDs[a]])
-//@   loop 1: invariant forall(a, 0, len(attrGroupIDs), mapdom(gen.old.attrGroupDefs, attrGroupIDs[a]))
+//@   loop 1: invariant forall(a, 0, len(attrGroupIDs), mapdom(gen.new.attrGroupDefs, attrGroupIDs[a]))
 //@   loop 1: invariant forall(a int, b int, 0 <= a && a < b && b < len(attrGroupIDs) ==> attrGroupIDs[a] < attrGroupIDs[b], pattern(attrGroupIDs[a], attrGroupIDs[b]))
-//@   loop 1: invariant forall(k int64, mapdom(gen.old.attrGroupDefs, k) ==> exists(a, 0, len(attrGroupIDs), attrGroupIDs[a] == k))
+//@   loop 1: invariant forall(k int64, mapdom(gen.new.attrGroupDefs, k) ==> exists(a, 0, len(attrGroupIDs), attrGroupIDs[a] == k))
 
 //@ # ---------------------------------------------------------------- C04 / C05 (lookup sites) ---
 //@ # Every use of an identifier resolves to the object the index holds for it -- that very object, not a copy --
